@@ -772,6 +772,37 @@ impl<'ast, 'c> Visit<'ast> for FnVisitor<'c> {
 		self.loop_bodies.push((ord, bs + 1, be - 1));
 		let cfg = self.cfg.loops.iter().find(|l| l.ordinal == ord).cloned();
 		if let Some(lc) = cfg.clone().filter(|l| l.index_loop) {
+			// `for PAT in A..B` (half-open usize range): `{ let mut vx_iN: usize = A; let vx_nN: usize = B; while vx_iN < vx_nN { let PAT = vx_iN; vx_iN = vx_iN + 1; … } }`
+			if let syn::Expr::Range(r) = &*fl.expr {
+				let (st, en) = match (&r.start, &r.end, &r.limits) {
+					(Some(a), Some(b), syn::RangeLimits::HalfOpen(_)) => (br(a.span()), br(b.span())),
+					_ => die(&format!("{}: loop {}: index_loop over a range needs `A..B`", self.fname, ord)),
+				};
+				let (ps, pe) = br(fl.pat.span());
+				let iv = format!("vx_i{}", ord);
+				let nv = format!("vx_n{}", ord);
+				self.push(ws, bs, vec![
+					Part::Text(format!("{{ let mut {}: usize = ", iv)), Part::Src(st.0, st.1),
+					Part::Text(format!("; let {}: usize = ", nv)), Part::Src(en.0, en.1),
+					Part::Text(format!(";\nwhile {} < {}\n", iv, nv)),
+				], "L20");
+				let mut parts = self.clause_parts("invariant_except_break", "invariant", &lc.invariant_except_break, "        ");
+				let mut inv = vec![Clause::Plain(format!("{} <= {}", iv, nv))];
+				inv.extend(lc.invariant.iter().cloned());
+				parts.extend(self.clause_parts("invariant", "invariant", &inv, "        "));
+				parts.extend(self.clause_parts("ensures", "invariant", &lc.ensures, "        "));
+				let d = lc.decreases.clone().unwrap_or(format!("{} - {}", nv, iv));
+				parts.push(Part::Text(format!("\n        decreases {},\n    ", d)));
+				self.push(bs, bs, parts, "A2");
+				self.push(bs + 1, bs + 1, vec![
+					Part::Text("\nlet ".to_string()), Part::Src(ps, pe),
+					Part::Text(format!(" = {}; {} = {} + 1;\n", iv, iv, iv)),
+				], "L20");
+				self.push(we, we, vec![Part::Text(" }".to_string())], "L20");
+				self.push(we, we, vec![Part::Text(";".to_string())], "A2");
+				syn::visit::visit_expr_for_loop(self, fl);
+				return;
+			}
 			let recv = match &*fl.expr {
 				syn::Expr::MethodCall(mc) if mc.method == "iter" && mc.args.is_empty() => br(mc.receiver.span()),
 				// `for PAT in X` over an owned Vec named by a path: the index loop binds `&X[i]`; accepted only because the
